@@ -227,10 +227,13 @@ pub fn call_lib(p: &RosProblem) -> SearchResult {
         RosProblem::RR { workload, subchain, limit, .. } => {
             let arrs: Vec<Box<dyn ArrivalBound>> = workload.iter().map(|c| c.arr.build()).collect();
             let costs: Vec<Box<dyn JobCostModel>> = workload.iter().map(|c| c.cost.build()).collect();
+            // callbacks with identical models share the model OBJECTS (e.g. two subscriptions running the
+            // same handler on one topic): they are distinct callbacks all the same
+            let (ai, ci) = shared_model_indices(workload);
             let cbs: Vec<rr::Callback<dyn ArrivalBound, dyn JobCostModel>> = workload
                 .iter()
                 .enumerate()
-                .map(|(i, c)| rr::Callback::new(d(c.rt_bound), &*arrs[i], &*costs[i], c.kind.lib()))
+                .map(|(i, c)| rr::Callback::new(d(c.rt_bound), &*arrs[ai[i]], &*costs[ci[i]], c.kind.lib()))
                 .collect();
             let sc: Vec<&rr::Callback<dyn ArrivalBound, dyn JobCostModel>> = subchain.iter().map(|i| &cbs[*i]).collect();
             rr::rta_subchain(&supply, &cbs[..], &sc[..], d(*limit))
@@ -238,15 +241,25 @@ pub fn call_lib(p: &RosProblem) -> SearchResult {
         RosProblem::BW { workload, subchain, limit, .. } => {
             let arrs: Vec<Box<dyn ArrivalBound>> = workload.iter().map(|c| c.arr.build()).collect();
             let costs: Vec<Box<dyn JobCostModel>> = workload.iter().map(|c| c.cost.build()).collect();
+            // callbacks with identical models share the model OBJECTS (e.g. two subscriptions running the
+            // same handler on one topic): they are distinct callbacks all the same
+            let (ai, ci) = shared_model_indices(workload);
             let cbs: Vec<bw::Callback<dyn ArrivalBound, dyn JobCostModel>> = workload
                 .iter()
                 .enumerate()
-                .map(|(i, c)| bw::Callback::new(d(c.rt_bound), &*arrs[i], &*costs[i], c.kind.lib()))
+                .map(|(i, c)| bw::Callback::new(d(c.rt_bound), &*arrs[ai[i]], &*costs[ci[i]], c.kind.lib()))
                 .collect();
             let sc: Vec<&bw::Callback<dyn ArrivalBound, dyn JobCostModel>> = subchain.iter().map(|i| &cbs[*i]).collect();
             bw::rta_subchain(&supply, &cbs[..], &sc[..], d(*limit))
         }
     }
+}
+
+/// For every callback the index of the first callback with an equal arrival model resp. cost model.
+fn shared_model_indices(workload: &[CbSpec]) -> (Vec<usize>, Vec<usize>) {
+    let ai = (0..workload.len()).map(|i| (0..=i).find(|k| workload[*k].arr == workload[i].arr).unwrap()).collect();
+    let ci = (0..workload.len()).map(|i| (0..=i).find(|k| workload[*k].cost == workload[i].cost).unwrap()).collect();
+    (ai, ci)
 }
 
 pub fn run_lib(p: &RosProblem) -> Result<Outcome, Caught> {
@@ -370,7 +383,13 @@ pub fn gen_problem(rng: &mut Rng, which: Option<usize>, limit: u64) -> RosProble
                     _ => rng.range(1, 12 * scale),
                 };
                 workload.push(CbSpec { rt_bound, arr, cost, kind });
+                // a twin: another callback of the same kind on the same models
+                if i + 1 < n && rng.chance(1, 8) {
+                    let twin = workload.last().unwrap().clone();
+                    workload.push(twin);
+                }
             }
+            let n = workload.len();
             let mut idx: Vec<usize> = (0..n).collect();
             rng.shuffle(&mut idx);
             let sl = if rng.chance(1, 2) { 1 } else { rng.usize(1, n) };
